@@ -96,6 +96,8 @@ class Run:
         self.clients = {}
         self.channels = {}
         self.req_objects = {}
+        self.cur_channel = {}
+        self._last_key = None
 
     # ------------------------------------------------------------------ helpers
     def request_desc(self, op):
@@ -192,8 +194,8 @@ class Run:
             CLOCK.on_sleep = None
         return self.sim.history
 
-    def _sync_client(self, service, kind):
-        key = (service, kind)
+    def _sync_client(self, service, kind, actor=0):
+        key = (service, kind, actor if self.sc.get("clients") == "per_actor" else 0)
         if key not in self.clients:
             svc = self.world.services[service]
             if kind == "rest":
@@ -204,16 +206,18 @@ class Run:
                 self.channels[key] = ch
                 tr = svc["grpc"](channel=ch, host="sim.invalid")
                 self.clients[key] = svc["sync"](transport=tr)
+        self._last_key = key
         return self.clients[key]
 
-    def _async_client(self, service):
-        key = (service, "async")
+    def _async_client(self, service, actor=0):
+        key = (service, "async", actor if self.sc.get("clients") == "per_actor" else 0)
         if key not in self.clients:
             svc = self.world.services[service]
             ch = simgrpc.SimAioChannel(self.sim)
             self.channels[key] = ch
             tr = svc["grpc_asyncio"](channel=ch, host="sim.invalid")
             self.clients[key] = svc["async"](transport=tr)
+        self._last_key = key
         return self.clients[key]
 
     def _run_sync(self, kind):
@@ -221,13 +225,14 @@ class Run:
         if kind == "rest":
             simhttp.install(self.sim)
         try:
-            for a in self.sc["actors"]:
+            for ai, a in enumerate(self.sc["actors"]):
                 if a.get("start"):
                     CLOCK.advance(a["start"])
                 for op in a["ops"]:
                     if op.get("delay"):
                         CLOCK.advance(op["delay"])
-                    client = self._sync_client(op["service"], kind)
+                    client = self._sync_client(op["service"], kind, ai)
+                    self.cur_channel[op["id"]] = getattr(self.channels.get(self._last_key), "cid", None)
                     tok = CURRENT_OP.set(op["id"])
                     try:
                         SYNC_EXEC[op["kind"]](self, client, op)
@@ -244,7 +249,8 @@ class Run:
             for op in a["ops"]:
                 if op.get("delay"):
                     await asyncio.sleep(op["delay"])
-                client = self._async_client(op["service"])
+                client = self._async_client(op["service"], i)
+                self.cur_channel[op["id"]] = getattr(self.channels.get(self._last_key), "cid", None)
                 tok = CURRENT_OP.set(op["id"])
                 try:
                     await ASYNC_EXEC[op["kind"]](self, client, op)
@@ -272,7 +278,7 @@ class Run:
 
 def _invoke_ev(run, op, **kw):
     run.sim.ev("invoke", op=op["id"], kind=op["kind"], service=op["service"], method=op["method"],
-               form=op.get("form", "dict"), **kw)
+               form=op.get("form", "dict"), ch=run.cur_channel.get(op["id"]), **kw)
 
 
 def _sync_unary(run, client, op):
@@ -512,8 +518,143 @@ async def _async_lro(run, client, op):
     run.sim.ev("return", op=op["id"], value=None, cls=None)
 
 
-SYNC_EXEC = {"unary": _sync_unary, "paged": _sync_paged, "lro": _sync_lro}
-ASYNC_EXEC = {"unary": _async_unary, "paged": _async_paged, "lro": _async_lro}
+def _stream_requests(run, op):
+    desc, m = run.request_desc(op)
+    reqs = []
+    for v in op.get("requests") or []:
+        nat = values.to_native(desc, v)
+        reqs.append(run.message_instance(m["input"], nat) if op.get("form", "msg") == "msg" else nat)
+    return reqs
+
+
+def _call_opts(run, op, asyncio_flavour):
+    o = dict(op)
+    o["form"] = "none"
+    _, kwargs = run.build_call(o, asyncio_flavour)
+    return kwargs
+
+
+def _sync_sstream(run, client, op):
+    fn = client_method(client, op["method"])
+    args, kwargs = run.build_call(op, False)
+    _invoke_ev(run, op)
+    try:
+        stream = fn(*args, **kwargs)
+        n = 0
+        for item in stream:
+            run.sim.ev("item", op=op["id"], value=norm_item(item))
+            n += 1
+            if op.get("stop_after") == n:
+                break
+    except Exception as e:  # noqa
+        run.sim.ev("raise", op=op["id"], **exc_info(e))
+        return
+    run.sim.ev("return", op=op["id"], value=None, cls=None)
+
+
+async def _async_sstream(run, client, op):
+    fn = client_method(client, op["method"])
+    args, kwargs = run.build_call(op, True)
+    _invoke_ev(run, op)
+    try:
+        stream = await fn(*args, **kwargs)
+        n = 0
+        async for item in stream:
+            run.sim.ev("item", op=op["id"], value=norm_item(item))
+            n += 1
+            if op.get("think"):
+                await asyncio.sleep(op["think"])
+            if op.get("stop_after") == n:
+                break
+    except asyncio.CancelledError:
+        run.sim.ev("cancelled", op=op["id"])
+        raise
+    except Exception as e:  # noqa
+        run.sim.ev("raise", op=op["id"], **exc_info(e))
+        return
+    run.sim.ev("return", op=op["id"], value=None, cls=None)
+
+
+def _sync_cstream(run, client, op):
+    fn = client_method(client, op["method"])
+    kwargs = _call_opts(run, op, False)
+    _invoke_ev(run, op)
+    try:
+        resp = fn(requests=iter(_stream_requests(run, op)), **kwargs)
+    except Exception as e:  # noqa
+        run.sim.ev("raise", op=op["id"], **exc_info(e))
+        return
+    _unary_return(run, op, resp)
+
+
+async def _async_cstream(run, client, op):
+    fn = client_method(client, op["method"])
+    kwargs = _call_opts(run, op, True)
+    _invoke_ev(run, op)
+    reqs = _stream_requests(run, op)
+
+    async def agen():
+        for r in reqs:
+            if op.get("think"):
+                await asyncio.sleep(op["think"])
+            yield r
+    try:
+        resp = await fn(requests=agen() if op.get("aiter", True) else iter(reqs), **kwargs)
+        if hasattr(resp, "__await__"):
+            # api-core hands back the stream-unary CALL (after wait_for_connection); its result is the reply
+            run.sim.ev("awaitable_call", op=op["id"], cls=type(resp).__name__)
+            resp = await resp
+    except asyncio.CancelledError:
+        run.sim.ev("cancelled", op=op["id"])
+        raise
+    except Exception as e:  # noqa
+        run.sim.ev("raise", op=op["id"], **exc_info(e))
+        return
+    _unary_return(run, op, resp)
+
+
+def _sync_bidi(run, client, op):
+    fn = client_method(client, op["method"])
+    kwargs = _call_opts(run, op, False)
+    _invoke_ev(run, op)
+    try:
+        stream = fn(requests=iter(_stream_requests(run, op)), **kwargs)
+        for item in stream:
+            run.sim.ev("item", op=op["id"], value=norm_item(item))
+    except Exception as e:  # noqa
+        run.sim.ev("raise", op=op["id"], **exc_info(e))
+        return
+    run.sim.ev("return", op=op["id"], value=None, cls=None)
+
+
+async def _async_bidi(run, client, op):
+    fn = client_method(client, op["method"])
+    kwargs = _call_opts(run, op, True)
+    _invoke_ev(run, op)
+    reqs = _stream_requests(run, op)
+
+    async def agen():
+        for r in reqs:
+            if op.get("think"):
+                await asyncio.sleep(op["think"])
+            yield r
+    try:
+        stream = await fn(requests=agen(), **kwargs)
+        async for item in stream:
+            run.sim.ev("item", op=op["id"], value=norm_item(item))
+    except asyncio.CancelledError:
+        run.sim.ev("cancelled", op=op["id"])
+        raise
+    except Exception as e:  # noqa
+        run.sim.ev("raise", op=op["id"], **exc_info(e))
+        return
+    run.sim.ev("return", op=op["id"], value=None, cls=None)
+
+
+SYNC_EXEC = {"unary": _sync_unary, "paged": _sync_paged, "lro": _sync_lro, "sstream": _sync_sstream,
+             "cstream": _sync_cstream, "bidi": _sync_bidi}
+ASYNC_EXEC = {"unary": _async_unary, "paged": _async_paged, "lro": _async_lro, "sstream": _async_sstream,
+              "cstream": _async_cstream, "bidi": _async_bidi}
 
 
 # ---------------------------------------------------------------------- default scripted server
@@ -530,7 +671,12 @@ def scripted_server(run):
         if op is None:
             return {"code": "INTERNAL", "lat": 0.0}
         script = op.get("server") or [{}]
-        o = script[min(call["n"], len(script)) - 1]
+        if call["n"] <= len(script):
+            o = script[call["n"] - 1]
+        else:
+            # faults stop: beyond the script the server answers cleanly
+            o = {k: v for k, v in script[-1].items() if k not in ("code", "cut")}
+            o["lat"] = min(o.get("lat", 0.0), 0.01)
         out = {"lat": o.get("lat", 0.0)}
         if o.get("code"):
             out["code"] = o["code"]
@@ -540,7 +686,12 @@ def scripted_server(run):
             out["code"] = "UNIMPLEMENTED"
             return out
         _, m, _ = sm
-        if "reply_hex" in o:
+        if "items" in o:
+            out["items"] = [values.to_dynamic(codec, m["output"], v).SerializeToString(deterministic=True) for v in o["items"]]
+            out["item_lat"] = o.get("item_lat") or []
+            if o.get("cut"):
+                out["cut"] = o["cut"]
+        elif "reply_hex" in o:
             out["reply"] = bytes.fromhex(o["reply_hex"])
         else:
             out["reply"] = values.to_dynamic(codec, m["output"], o.get("reply") or {}).SerializeToString(deterministic=True)
